@@ -160,3 +160,62 @@ Definition obs_roundtrip (tbl : list (list N * list N))
     Nd [Nd (map frame_len_obs frames);
         Nd (map pres_obs2 t);
         obool (match fin with Some _ => true | None => false end)].
+
+(* ---- Body::is_end_stream of EncodeBody (what hyper asks before it polls a body again) ------- *)
+Definition is_end_stream (b : Encoder.body_state) : bool := Encoder.b_end b.
+
+Section Eos.
+Variable msg : Type.
+Variable enc : Type.
+Variable ser : msg -> option (list N).
+Variable compress : enc -> list N -> list N.
+(* a consumer that, like hyper, asks is_end_stream() before every poll and never polls a body
+   that answered true (n polls at most) *)
+Fixpoint drive_eos (c : Encoder.cfg enc) (n : nat) (b : Encoder.body_state)
+         (src : list (Encoder.sevent msg)) : list Encoder.body_out :=
+  match n with
+  | O => []
+  | S k =>
+      if is_end_stream b then []
+      else let '(o, b', src') := Encoder.body_poll msg enc ser compress c b src in
+           o :: drive_eos c k b' src'
+  end.
+End Eos.
+
+(* ---- C06, receiving side: declared lengths (kind c06.declared of h_roundtrip) -------------- *)
+(* the largest length for which buf.reserve was reached *)
+Definition max_reserved (l : list ghost) : N :=
+  fold_left (fun a g => match g with Reserve n => N.max a n end) l 0.
+
+(* like Model/Decoder.v obs_decode (drain with [fuel] polls, then [extra] more, with the
+   ScriptBody counters), plus the ghost: was memory reserved for a length of 64 KiB or more -
+   compared with the allocation meter of the harness; large payloads by length and rx32 *)
+Definition obs_declared (dir : direction) (encoding : option N) (max : option N)
+           (evs : list bev) (fuel extra : N) : tr :=
+  let dz := ztab_lookup [] in
+  let d0 := dec_new dir encoding max in
+  match drain deser_raw dz (N.to_nat fuel) evs (mkB 0) d0 with
+  | (t1, None) => Nd [Nd (map pres_obs2 t1 ++ [Nd [Nn 5]])]
+  | (t1, Some (d1, evs1, g1)) =>
+      let '(t2, (d2, _, g2)) := polls deser_raw dz (N.to_nat extra) evs1 g1 d1 in
+      Nd [Nd (map pres_obs2 t1); Nn (polls_after_end g1); Nd (map pres_obs2 t2); Nn (polls_after_end g2);
+          obool (65536 <=? max_reserved (d_log d2))]
+  end.
+
+(* ---- C06, sending side: a payload above 2^32-1 bytes (kind c06.4gb, thorough tier) --------- *)
+(* Such a payload cannot be written as a list.  By c06_enc_limit_error (second clause) encoding
+   it fails with st_4gb len whatever else holds, so the stream is evaluated with that item
+   replaced by the failure it produces. *)
+Definition obs_4gb (server : bool) (src : list (option (list N))) (len : N)
+           (cuts pend : list N) (fuel : N) : tr :=
+  let c := Encoder.mkCfg (@None Encoder.cenc) false None 8192 32768 in
+  let r := if server then Encoder.Server else Encoder.Client in
+  let s := src_of src ++ [Encoder.SItem (Encoder.IErr (Encoder.st_4gb len))] in
+  let outs := until_none (Encoder.run_body (list N) Encoder.cenc Encoder.ser_raw
+                            (Encoder.compress_tbl []) c r s 0) in
+  let frames := Encoder.frames_of outs in
+  let script := transport cuts pend frames in
+  let d0 := dec_new (dir_of_role r) None None in
+  let '(t, fin) := drain deser_raw (decompress_tbl []) (N.to_nat fuel) script (mkB 0) d0 in
+  Nd [Nd (map frame_len_obs frames); Nd (map pres_obs2 t);
+      obool (match fin with Some _ => true | None => false end)].
